@@ -189,6 +189,11 @@ func runC03(c *Ctx, phase string) {
 
 func runC03Corpus(c *Ctx, phase string) {
 	u := c.U
+	if phase == "race-corpus" {
+		// the -race / checkptr build repeats the quick-sized corpus (the detector costs ~10x)
+		defer func(t string) { c.Tier = t }(c.Tier)
+		c.Tier = "quick"
+	}
 	if phase == "corpus" {
 		c.Meta("hostile inputs to all three functions (as expression, as allowed entry, as element of the ValidateLicenses slice): every byte prefix, every single-token deletion and every single-token "+
 			"insertion (each of the 20 alphabet kinds at each position) of generated valid expressions; all token sequences up to length L over the C05 alphabet in loose and tight spacing; random byte strings "+
